@@ -1,4 +1,5 @@
 import CopVerif.Real.Inst
+import CopVerif.Real.BridgeTac
 import CopVerif.Gen.Bivariate
 /-! Clayton copula over ℝ: spec, bridge to the generated definitions, C06 facts. -/
 namespace CopVerif.Clayton
@@ -14,10 +15,10 @@ noncomputable def φ (θ t : ℝ) : ℝ := (1 / θ) * (t ^ (-θ) - 1)
 /-! ### bridges: generated definition = spec -/
 
 theorem bridge_cdfRow (θ u v : ℝ) : Gen.Clayton.cdfRow θ u v = C θ u v := by
-  simp [Gen.Clayton.cdfRow, C]
+  bridge [Gen.Clayton.cdfRow, C]
 
 theorem bridge_generator (θ t : ℝ) : Gen.Clayton.generator θ t = φ θ t := by
-  simp [Gen.Clayton.generator, φ]
+  bridge [Gen.Clayton.generator, φ]
 
 theorem checkFit_ok {θ : ℝ} (hθ : 0 < θ) :
     checkFit (Gen.Clayton.thetaLower (α := ℝ)) Gen.Clayton.thetaUpper Gen.Clayton.invalidThetas θ
